@@ -136,6 +136,11 @@ def flat_geom(cg):
 # ---------------------------------------------------------------------------
 # implementation runners
 # ---------------------------------------------------------------------------
+def q_plain(spikeglx, md, gen):
+    g, inds = spikeglx.geometry_from_meta(md, return_index=True, sort=True)
+    return (canon_geom(g, gen), ints(inds))
+
+
 def run_geometry(case, tdir, rng=None):
     """-> dict with the canonicalised observations of all public entry points.  The queries are issued in a
     per-case random order (rng), the first one is repeated at the end, and the lf companion file of the same
@@ -173,6 +178,15 @@ def run_geometry(case, tdir, rng=None):
         key, fn, arg = queries[0]
         obs["repeat_same"] = fn(arg) == obs[key]            # same question, same process, same answer
         obs["query_order"] = [str(q[0]) for q in queries]
+        # representation variants: file name as str, plain dict, NP2.4_shank as int / numpy integer / str
+        var_ok = canon_geom(spikeglx.read_geometry(str(f)), gen) == obs["read_geometry"]
+        plain = dict(md)
+        var_ok = var_ok and q_plain(spikeglx, plain, gen) == obs[("gfm", True)]
+        if case["split"] is not None:
+            for v in (int(case["split"]), np.int64(case["split"]), str(case["split"])):
+                plain["NP2.4_shank"] = v
+                var_ok = var_ok and q_plain(spikeglx, plain, gen) == obs[("gfm", True)]
+        obs["variants_same"] = var_ok
         # the lf file of the same probe carries the same site table
         if case["enc"] != 2 and "snsApLfSy=%d,0,1" % case.get("_nsaved", -1) in txt:
             flf = tdir / ("c%d.lf.meta" % case["id"])
@@ -219,6 +233,9 @@ def oracle_geometry(case, obs):
     if not obs.get("repeat_same", True):
         bad.append(("entry_points", "the same geometry query asked twice in one process gives two answers "
                                     "(order of queries %s)" % obs.get("query_order")))
+    if not obs.get("variants_same", True):
+        bad.append(("entry_points", "file name as str / plain dict / NP2.4_shank as int, numpy integer or str "
+                                    "changes the geometry"))
     if "lf_read_geometry" in obs and (obs["lf_read_geometry"] != gs or obs["lf_reader_unsorted"][0] != gu):
         bad.append(("entry_points", "the lf file of the same probe (same site table) gives another geometry"))
     for srt, (g, inds) in ((False, (gu, iu)), (True, (gs, is_))):
@@ -397,7 +414,12 @@ def run(ctx):
     samples = []
     evaluations = 0
     try:
-        n_fix = fixture_pairs(ctx)
+        try:
+            n_fix = fixture_pairs(ctx)
+        except Exception as e:
+            ctx.fail("reading the shipped fixture pairs raised %r" % (e,), {"fn": "fixture_pairs"},
+                     {"clause": "exception"})
+            n_fix = 0
         ctx.coverage["fixture_convention_sites"] = n_fix
         # ---------------- geometry_from_meta & friends ----------------
         tables = []
@@ -615,8 +637,12 @@ def run_layouts(ctx, inputs, outputs, descr, dist, tdir):
         for s in range(-1, 5):
             if s < 0:
                 continue
-            hs = neuropixel.split_trace_header(h, shank=s)
-            chs = canon_geom(hs, gen)
+            try:
+                hs = neuropixel.split_trace_header(h, shank=s)
+                chs = canon_geom(hs, gen)
+            except Exception as e:
+                ctx.fail("split_trace_header raised %r" % (e,), dict(d, shank=s), {"clause": "exception"})
+                continue
             idx = [i for i in range(384) if ch["shank"][i] == s]
             if any(chs[k] != [ch[k][i] for i in idx] for k in KEYS):
                 ctx.fail("split_trace_header is not the restriction to the shank",
@@ -631,8 +657,12 @@ def run_layouts(ctx, inputs, outputs, descr, dist, tdir):
     for gen in GEN_CODE:
         for ver in VERSION_ARG[gen]:
             for nc in ncs:
-                sh, adc = neuropixel.adc_shifts(version=ver, nc=nc)
                 d = {"fn": "adc_shifts", "version": ver, "nc": nc}
+                try:
+                    sh, adc = neuropixel.adc_shifts(version=ver, nc=nc)
+                except Exception as e:
+                    ctx.fail("adc_shifts raised %r" % (e,), d, {"clause": "exception"})
+                    continue
                 shc, adcc = shift_codes(sh, gen), ints(adc)
                 m = min(nc, 384)
                 a, _ = ADC[gen]
@@ -662,12 +692,16 @@ def run_layouts(ctx, inputs, outputs, descr, dist, tdir):
                 b = [rng.choice([rng.randrange(-50, 5000), rng.randrange(0, 8) * dx + x0, x0, y0, 0])
                      for _ in range(n)]
                 d = {"fn": "rc2xy/xy2rc", "version": ver, "a": a, "b": b}
-                xy = neuropixel.rc2xy(np.array(a), np.array(b), version=ver)
-                rc = neuropixel.xy2rc(np.array(a), np.array(b), version=ver)
-                col, row = np.asarray(rc["col"], dtype=float), np.asarray(rc["row"], dtype=float)
-                # inverse on the grid: rc2xy(xy2rc) and xy2rc(rc2xy)
-                back = neuropixel.rc2xy(rc["row"], rc["col"], version=ver)
-                fwd = neuropixel.xy2rc(xy["x"], xy["y"], version=ver)
+                try:
+                    xy = neuropixel.rc2xy(np.array(a), np.array(b), version=ver)
+                    rc = neuropixel.xy2rc(np.array(a), np.array(b), version=ver)
+                    col, row = np.asarray(rc["col"], dtype=float), np.asarray(rc["row"], dtype=float)
+                    # inverse on the grid: rc2xy(xy2rc) and xy2rc(rc2xy)
+                    back = neuropixel.rc2xy(rc["row"], rc["col"], version=ver)
+                    fwd = neuropixel.xy2rc(xy["x"], xy["y"], version=ver)
+                except Exception as e:
+                    ctx.fail("rc2xy / xy2rc raised %r" % (e,), d, {"clause": "exception"})
+                    continue
                 if not (np.allclose(back["x"], a, rtol=0, atol=1e-9) and np.allclose(back["y"], b, rtol=0, atol=1e-9)
                         and np.array_equal(fwd["row"], a) and np.array_equal(fwd["col"], b)):
                     ctx.fail("rc2xy and xy2rc are not inverses", d, {"clause": "rc_xy"})
